@@ -8,6 +8,8 @@ import re
 
 from .. import regexlang as rx
 from ..astutil import call_attr, calls_in, guard_facts, unparse, walk_local
+from ..cfg import CFG
+from ..dataflow import resolved_text
 from ..report import Finding, Report
 from ..rx_extract import compile_call
 from ..srcindex import AnalysisError, ClassInfo, Index
@@ -195,15 +197,40 @@ def check_escapes(idx: Index, rep: Report) -> None:
 def check_empty_values(idx: Index, rep: Report) -> None:
     r = rep.rule("C18.R3", "an empty value list means 'no value given' only for optional (Union with None) fields; for tuple fields it is the empty tuple that was printed", floor=1)
     f = idx.func(AS, "_convert_arg_to_type")
-    tests = [n for n in walk_local(f.node) if isinstance(n, ast.If) and unparse(n.test) == "len(value) == 0"]
-    if not tests:
-        raise AnalysisError(f"{f.fq}: empty-value test not found")
-    for n in tests:
-        facts = [(unparse(t), p) for t, p in guard_facts(f.node, n)]
-        if ("origin in [Union, UnionType]", True) in facts:
-            r.ok(f.fq, f"{f.loc} empty list special-cased only under `origin in [Union, UnionType]`")
+    val = f.node.args.args[0].arg
+    dest = f.node.args.args[1].arg
+    EMPTY_T = {f"len({val}) == 0", f"not {val}", f"{val} == []", f"not len({val})", f"len({val}) < 1", f"{val} == ()"}
+    EMPTY_F = {f"len({val}) != 0", f"{val}", f"len({val})", f"len({val}) > 0", f"len({val}) >= 1", f"{val} != []"}
+
+    def is_empty_fact(t: ast.AST, pol: bool) -> bool:
+        txt = unparse(t)
+        return (pol and txt in EMPTY_T) or ((not pol) and txt in EMPTY_F) or ((not pol) and isinstance(t, ast.UnaryOp) and unparse(t.operand) in EMPTY_T)
+
+    def is_union_fact(t: ast.AST, pol: bool, cfg) -> bool:
+        txt = resolved_text(cfg, t, cfg.node_of(t)) if not isinstance(t, ast.Name) else unparse(t)
+        return pol and ("Union" in txt and f"get_origin({dest})" in txt)
+
+    def is_tuple_check_failed(t: ast.AST, pol: bool) -> bool:
+        return (not pol) and isinstance(t, ast.Call) and call_attr(t) == "isa" and len(t.args) == 2 and unparse(t.args[0]) == val and unparse(t.args[1]) == dest
+
+    cfg = CFG(f.node)
+    sites = [n for n in walk_local(f.node) if isinstance(n, ast.Raise) or (isinstance(n, ast.Return) and n.value is not None and unparse(n.value) == "None")]
+    n_empty = 0
+    for n in sites:
+        facts = guard_facts(f.node, n)
+        if not any(is_empty_fact(t, p) for t, p in facts):
+            continue
+        n_empty += 1
+        if any(is_union_fact(t, p, cfg) for t, p in facts) or any(is_tuple_check_failed(t, p) for t, p in facts):
+            r.ok(f.fq, f"{AS}:{n.lineno} `{unparse(n)[:50]}` for an empty list only for Union-typed fields")
         else:
-            r.fail(f.fq, Finding("C18.R3", f.fq, "empty-tuple-rejected", "`len(value) == 0` is treated as 'no value' for every destination type: a `tuple[T, ...]` option holding () is printed as a bare key and parsing it back raises 'Argument must contain a value'", f"{AS}:{n.lineno}"))
+            r.fail(f.fq, Finding("C18.R3", f.fq, "empty-tuple-rejected", f"`{unparse(n)[:60]}` is reached for an empty value list whatever the destination type: a `tuple[T, ...]` option holding () is printed as a bare key and parsing it back raises / yields None instead of ()", f"{AS}:{n.lineno}"))
+    if n_empty == 0:
+        # no special case at all: the empty list falls through to the isa(value, dest_type) test, which accepts it for tuple[T, ...]
+        if any(isinstance(c, ast.Call) and call_attr(c) == "isa" and len(c.args) == 2 and unparse(c.args[0]) == val for c in calls_in(f.node)):
+            r.ok(f.fq, f"{f.loc} no emptiness special case; the whole list is checked against the destination type")
+        else:
+            raise AnalysisError(f"{f.fq}: neither an emptiness special case nor the `isa({val}, {dest})` fallback found")
     g = idx.func(AS, "ArgSpec._spec_parameter_list_type_str")
     if "if arg:" in unparse(g.node) and "return name" in unparse(g.node):
         r.ok(g.fq, f"{g.loc} empty list printed as a bare key")
